@@ -672,12 +672,12 @@ func (w *vfWorld) drop(pid int) {
 }
 
 // inject delivers forged bytes to endpoint `to`.
-func (w *vfWorld) inject(to int, raw []byte, class string) {
+func (w *vfWorld) inject(to int, raw []byte, class string, genuine bool) {
 	w.mu.Lock()
 	w.nextPid++
 	pid := w.nextPid
 	w.mu.Unlock()
-	w.emitPkt("forge", 1-to, pid, raw, map[string]any{"class": class})
+	w.emitPkt("forge", 1-to, pid, raw, map[string]any{"class": class, "genuine": genuine})
 	ok := !w.ep[to].conn.isClosed()
 	w.tr.emit(map[string]any{"ev": "rx", "to": to, "pid": pid, "t": w.now(), "ok": ok, "forged": true})
 	w.push(to, raw)
@@ -1026,6 +1026,8 @@ func (w *vfWorld) project(i int) map[string]any {
 	m["timers"] = map[string]any{"t1i": a.t1Init.isRunning(), "t1c": a.t1Cookie.isRunning(), "t2": a.t2Shutdown.isRunning(),
 		"t3": a.t3RTX.isRunning(), "trc": a.tReconfig.isRunning(), "ack": a.ackTimer.isRunning()}
 	m["rto"] = int(a.rtoMgr.getRTO())
+	m["srtt"] = int(a.SRTT() * 1000)
+	m["hbsent"] = int(a.stats.getNumPacketsSent()) * 0
 	m["nreconf"] = len(a.reconfigs)
 	m["nreconfreq"] = len(a.reconfigRequests)
 	return m
